@@ -14,6 +14,7 @@ THEOREMS = [
     "C19_no_invented", "C19_views_total", "C19_log_is_map_values", "C19_keys_unique",
     "C19_fresh_read_through_partial", "C19_announcement_pushes_down_partial",
     "C19_cutoff_is_last_slot", "C19_view_within_log", "C19_announcement_at_full_depth",
+    "C19_clean_histories_track", "C19_read_through_completes", "C19_clean_history_example",
     "C19_no_duplicates_refuted", "C19_pushdown_refuted", "C19_read_through_refuted", "C19_nonvacuous",
 ]
 
@@ -234,6 +235,21 @@ def run(ctx: Ctx) -> None:
 
     # ------------------------------------------------------------ D: a simulated controller log at FULL depth
     deep_log(ctx, entry_msg, null_msg, rounds=24 if thorough else 6)
+    kcases, kimpl = ctx.extra.pop("clean_history_cases")
+    if built:
+        pre = PRELUDE.replace("M_Faultlog.", "M_Faultlog P_Faultlog P_FaultlogDepth P_FaultlogClean.")
+        src = pre + ("Eval vm_compute in (map (fun ops => match krun ops kinit with Some st => fl_map (k_s st) | None => [(-1, -1)] end) "
+                     + common.coq_list(kcases, ";\n ") + ").")
+        rc, out = common.coq_eval("C19k", {"k": src}, timeout=600)["k"]
+        if rc:
+            ctx.obligation("correspondence:clean-histories(krun)", False, "correspondence", out[-400:])
+        else:
+            model = [[tuple(p) for p in r] for r in parse_pairs_lists(out)]
+            bad = [i for i, (a, b) in enumerate(zip(model, kimpl)) if a != [tuple(p) for p in b]]
+            ctx.obligation("correspondence:clean-histories(krun)", not bad and len(model) == len(kimpl), "correspondence",
+                           f"{len(bad)} of {len(kimpl)} differ; first: ops {kcases[bad[0]][:300]} model {model[bad[0]][:6]} implementation {kimpl[bad[0]][:6]}" if bad else "")
+    else:
+        ctx.obligation("correspondence:clean-histories(krun)", False, "correspondence", "model not built")
 
 
 DEPTH = 64   # the property: "log up to 64 deep" -- the controller's slots are 00..3F, whatever the library's constants say
@@ -296,6 +312,47 @@ def deep_log(ctx: Ctx, entry_msg, null_msg, rounds: int) -> None:
             check_equal(f, log, hist, "deep-log:pushdown-at-full-depth", "with the whole log known, a delivered announcement does not leave the view equal to the controller's log (every known entry one down, the last one off the end)")
         read_through(f, log, hist)
         check_equal(f, log, hist, "deep-log:read-through-mismatch", "after a complete read-through of a full-depth log the view differs from the controller's log")
+    # (D3) histories without loss over the model's alphabet (KNew = announced and delivered, KRead i with i not beyond the
+    #      position reached): the real class against the simulated controller AND against the model's krun
+    kcases, kimpl = [], []
+    for r in range(rounds * 3):
+        f, log, hist, nxt, n = FaultLog(_Tcs()), [], [], 1, 0
+        ops = []
+        deep = r % 3 == 0
+        for _ in range(rng.randint(70, 110) if deep else rng.randint(3, 25)):
+            if rng.random() < (0.75 if deep else 0.4):
+                new_entry(log, nxt)
+                f.handle_msg(entry_msg(" I", 0, nxt))
+                ops.append(f"KNew {nxt}")
+                hist.append(("new-entry", "announced"))
+                nxt += 1
+                n = min(n + 1, DEPTH)
+            else:
+                i = rng.choice((n, n, n, rng.randint(0, n)))
+                if i >= DEPTH:
+                    continue
+                if i < len(log):
+                    f.handle_msg(entry_msg("RP", i, log[i]))
+                    hist.append(("RP", i, log[i]))
+                else:
+                    if i == 0:
+                        continue              # the null reply to RQ idx 00 carries no index: the code ignores it
+                    f._process_msg(null_msg(i))
+                    hist.append(("RP", i, None))
+                ops.append(f"KRead {i}")
+                if i == n and i < len(log):
+                    n += 1
+            ctx.case(("deep-kop", r, len(ops)), True, "deep-log:no-loss")
+            check_bound(f, hist)
+            v = view_of(f)
+            if v != dict(enumerate(log[:n])):
+                ctx.violation("clean-history-view-differs", "in a history without loss the view is not the controller's log down to the position reached",
+                              {"history": list(hist), "position": n, "view": sorted(v.items())[:8], "controller": log[:8]}, "history")
+                break
+        kcases.append("[" + "; ".join(ops) + "]")
+        kimpl.append([(k, unts(v)) for k, v in f._map.items()])
+    ctx.extra["clean_history_cases"] = (kcases, kimpl)
+
     # (D1) arbitrary histories on a (nearly) full log: losses, single replies near the end -- no index beyond the log, views total
     for r in range(rounds):
         f, log, hist, nxt = FaultLog(_Tcs()), [], [], 1
